@@ -313,6 +313,8 @@ func verdict(c callCase) (v string, flat []argVal, ptypes []string) {
 
 type ctxMark struct{}
 
+var ctxSerial int
+
 func checkCall(c callCase) (msg string, v string) {
 	rec := &spec.Recorder{}
 	fn := c.Fn
@@ -322,7 +324,12 @@ func checkCall(c callCase) (msg string, v string) {
 	if !p.OK() {
 		return fmt.Sprintf("HARNESS: %q does not parse: %v", text, p.Err), "harness"
 	}
-	ctx := context.WithValue(context.Background(), ctxMark{}, "caller")
+	// the caller's context: recognisable by a value unique to this call and by its cancellation
+	ctxSerial++
+	token := fmt.Sprint("caller-", ctxSerial)
+	base, cancel := context.WithCancel(context.Background())
+	defer cancel()
+	ctx := context.WithValue(base, ctxMark{}, token)
 	r := formula.NewRunner()
 	r.SetThis(data)
 	out := obs.Eval(r, ctx, p.Src.Expression)
@@ -379,8 +386,28 @@ func checkCall(c callCase) (msg string, v string) {
 				return fmt.Sprintf("%s with %s: argument %d received as %s (%T), want %s converted to %s", text, sig, i+1, obs.Show(the.Args[i]), the.Args[i], flat[i].Text, ptypes[i]), v
 			}
 		}
-		if fn.Ctx && the.Ctx != ctx {
-			return fmt.Sprintf("%s with %s: received context %v, want the caller's context", text, sig, the.Ctx), v
+		if fn.Ctx {
+			// the caller's context or one derived from it: it carries the caller's values and the caller's cancellation
+			if the.Ctx == nil || the.Ctx.Value(ctxMark{}) != token {
+				return fmt.Sprintf("%s with %s: received context %v, which does not carry the value %q of the caller's context", text, sig, the.Ctx, token), v
+			}
+			cancel()
+			if the.Ctx.Err() == nil {
+				return fmt.Sprintf("%s with %s: received context %v, which is not cancelled when the caller's context is", text, sig, the.Ctx), v
+			}
+			if fn.Err == "" && out.Err == nil {
+				// the same runner (and tree) used again by another caller: that caller's context arrives
+				token2 := token + "-second"
+				ctx2 := context.WithValue(context.Background(), ctxMark{}, token2)
+				n0 := len(rec.Calls)
+				out2 := obs.Eval(r, ctx2, p.Src.Expression)
+				if out2.Panic != nil || out2.Err != nil || len(rec.Calls) != n0+1 {
+					return fmt.Sprintf("%s with %s: a second Resolve on the same runner gave %s with %d further invocations, the first %s", text, sig, out2, len(rec.Calls)-n0, out), v
+				}
+				if c2 := rec.Calls[n0].Ctx; c2 == nil || c2.Value(ctxMark{}) != token2 {
+					return fmt.Sprintf("%s with %s: on the second Resolve of the same runner, called with another context, the function received context %v instead of the second caller's (value %q)", text, sig, c2, token2), v
+				}
+			}
 		}
 		if fn.Err != "" {
 			if out.Err == nil || !strings.Contains(out.Err.Error(), fn.Name) {
